@@ -1025,7 +1025,7 @@ pub fn audit_against_daemon(depth: usize) -> Result<serde_json::Value, AuditErro
     }
 }
 
-mod audit {
+pub mod audit {
     use super::*;
     use std::{path::PathBuf, process::{Child, Command, Stdio}};
     use zbus::blocking::{connection::Builder, Connection, MessageIterator};
@@ -1186,6 +1186,38 @@ mod audit {
             }
         }
         v
+    }
+
+    /// One-off confirmation of C36-F1 on the real daemon with zbus's own name API (not part of
+    /// any verdict): A owns x.y.N with AllowReplacement, B replaces A, B releases; the daemon
+    /// hands the name back to A (A was kept in the queue), and A's `release_name` still says false.
+    pub fn reacquire_after_replacement() -> Result<String, AuditError> {
+        use zbus::fdo::RequestNameFlags;
+        let (_daemon, addr) = start_daemon()?;
+        let a = Builder::address(addr.as_str())
+            .and_then(|b| b.build())
+            .map_err(|e| AuditError::Unavailable(format!("connect: {e}")))?;
+        let mut b = Peer::new(&addr)?;
+        let name = "x.y.N";
+        let una = |e: zbus::Error| AuditError::Unavailable(e.to_string());
+        let r1 = a
+            .request_name_with_flags(name, RequestNameFlags::AllowReplacement.into())
+            .map_err(una)?;
+        let rb = b.call("RequestName", &(name, F_REPLACE))?;
+        std::thread::sleep(std::time::Duration::from_millis(200));
+        let rb2 = b.call("ReleaseName", &(name,))?;
+        std::thread::sleep(std::time::Duration::from_millis(200));
+        let owner1 = b.call("GetNameOwner", &(name,))?;
+        let rel = a.release_name(name).map_err(una)?;
+        let owner2 = b.call("GetNameOwner", &(name,))?;
+        Ok(format!(
+            "A={} request(AllowReplacement)={r1:?}; B RequestName(ReplaceExisting)={:?}; B ReleaseName={:?}; daemon owner now {:?}; A.release_name()={rel}; daemon owner afterwards {:?}",
+            a.unique_name().map(|n| n.to_string()).unwrap_or_default(),
+            rb.last(),
+            rb2.last(),
+            owner1.last(),
+            owner2.last()
+        ))
     }
 
     pub fn run(depth: usize) -> Result<serde_json::Value, AuditError> {
